@@ -269,6 +269,12 @@ void realise(Member &m, Ctx *ctx = nullptr)
     ImportSourcePtr is;
     std::string url = "lib" + std::to_string(g_libCounter++) + ".cellml";
     for (auto &d : m.main) {
+        if (d.import && d.unresolved) { // never resolvable: its own source, naming a document that does not exist
+            auto none = ImportSource::create();
+            none->setUrl("verif_no_such_document_" + std::to_string(g_libCounter) + ".cellml");
+            m.model->addUnits(makeUnits(d, none));
+            continue;
+        }
         if (d.import && !is) { is = ImportSource::create(); is->setUrl(url); }
         m.model->addUnits(makeUnits(d, d.import ? is : nullptr));
     }
@@ -287,6 +293,7 @@ void realise(Member &m, Ctx *ctx = nullptr)
 
 // ------------------------------------------------------------------ the pool
 std::vector<Member> g_pool, g_special;
+size_t g_nbasic = 0; // the hand-listed undefined arguments come first in g_special; the generated partially defined ones follow
 std::vector<int> g_sub; // sub-pool: indices into g_pool
 bool g_thorough = false;
 
@@ -538,6 +545,55 @@ void buildPool()
     { Member m; m.kind = "import-of-missing-units"; Def d; d.name = "r"; d.import = true; d.importRef = "nothere"; m.main = {d}; m.lib = innerDefs()[0]; m.root = "r"; add(S, m); }
     { Member m; m.kind = "via-unresolved-import"; Def d; d.name = "r"; d.items = {{"imp", {0, 0, 0}}}; Def im; im.name = "imp"; im.import = true; im.importRef = "in"; im.unresolved = true; m.main = {d, im}; m.lib = innerDefs()[0]; m.root = "r"; add(S, m); }
     { Member m; m.kind = "via-import-of-missing-units"; Def d; d.name = "r"; d.items = {{"imp", {0, 1, 0}}}; Def im; im.name = "imp"; im.import = true; im.importRef = "nothere"; m.main = {d, im}; m.lib = innerDefs()[0]; m.root = "r"; add(S, m); }
+    g_nbasic = S.size();
+    // Partially defined definitions: every sequence of 1..3 unit children over a menu of six undefined and four defined references
+    // that holds at least one undefined child (so every position of the undefined child among defined ones, and every mix of kinds),
+    // directly, behind one local intermediate, and as an imported library definition. None of them is fully defined.
+    {
+        struct Ref { const char *name; bool undefined; bool needsImport; };
+        const std::vector<Ref> menu = {{"ghost", true, false}, {"ca", true, false}, {"selfref", true, false}, {"nd", true, false}, {"impu", true, true}, {"impm", true, true},
+                                       {"metre", false, false}, {"apple", false, false}, {"in", false, false}, {"imp", false, true}};
+        auto helpers = [&](const std::vector<int> &seq, std::vector<Def> &defs, std::vector<Def> &lib, bool inLibrary) {
+            std::set<std::string> used;
+            for (int i : seq) used.insert(menu[i].name);
+            auto one = [](const std::string &n, const std::string &ref) { Def d; d.name = n; d.items = {{ref, {0, 0, 0}}}; return d; };
+            if (used.count("ca")) { defs.push_back(one("ca", "cb")); defs.push_back(one("cb", "ca")); }
+            if (used.count("selfref")) defs.push_back(one("selfref", "selfref"));
+            if (used.count("nd")) defs.push_back(one("nd", "ghost"));
+            if (used.count("apple")) defs.push_back(baseDef("apple"));
+            if (used.count("in")) defs.push_back(one("in", "metre"));
+            if (inLibrary) return;
+            if (used.count("impu")) { Def d; d.name = "impu"; d.import = true; d.importRef = "in"; d.unresolved = true; defs.push_back(d); }
+            if (used.count("impm")) { Def d; d.name = "impm"; d.import = true; d.importRef = "nothere"; defs.push_back(d); }
+            if (used.count("imp")) { Def d; d.name = "imp"; d.import = true; d.importRef = "in"; defs.push_back(d); }
+            if (used.count("impu") || used.count("impm") || used.count("imp")) lib = {one("in", "metre")};
+        };
+        std::vector<int> seq;
+        std::function<void()> emit = [&]() {
+            bool anyUndef = false, anyImport = false;
+            std::string shape;
+            for (int i : seq) { anyUndef |= menu[i].undefined; anyImport |= menu[i].needsImport; shape += std::string(shape.empty() ? "" : "*") + (menu[i].undefined ? "U" : (i == 6 ? "std" : "D")); }
+            if (!anyUndef) return;
+            std::vector<Item> items;
+            for (int i : seq) items.push_back({menu[i].name, {0, 0, 0}});
+            for (int variant = 0; variant < 3; ++variant) {
+                if (variant == 2 && anyImport) continue; // the library definition holds no imports of its own
+                Member m;
+                m.kind = std::string("partially-defined:") + (variant == 0 ? "direct:" : variant == 1 ? "behind-intermediate:" : "imported:") + shape;
+                Def d; d.name = variant == 1 ? "w" : "r"; d.items = items;
+                if (variant == 0) { m.main = {d}; helpers(seq, m.main, m.lib, false); }
+                else if (variant == 1) { Def r; r.name = "r"; r.items = {{"w", {0, 0, 0}}}; m.main = {r, d}; helpers(seq, m.main, m.lib, false); }
+                else { Def r; r.name = "r"; r.import = true; r.importRef = "r"; m.main = {r}; m.lib = {d}; std::vector<Def> none; helpers(seq, m.lib, none, true); }
+                m.root = "r";
+                add(S, m);
+            }
+        };
+        std::function<void(size_t)> rec = [&](size_t len) {
+            if (seq.size() == len) { emit(); return; }
+            for (int i = 0; i < int(menu.size()); ++i) { seq.push_back(i); rec(len); seq.pop_back(); }
+        };
+        for (size_t len = 1; len <= 3; ++len) rec(len);
+    }
     for (auto &m : S) reference(m);
 
     // sub-pool: for every distinct reduction class the first K members of each kind-group (deterministic), so that every class
@@ -735,24 +791,59 @@ void runTriplesRow(uint64_t i, Ctx &c)
 }
 
 // ------------------------------------------------------------------ family special: null / undefined / parentless arguments
+// Index layout of the special family. Block A: the hand-listed undefined arguments and null, each against every sub-pool member.
+// Block B: the generated partially defined definitions, each against one representative of every reduction class (an undefined
+// argument can at most be confused with a partner by its reduction, not by the partner's construction). Both blocks add the
+// hand-listed arguments, null and the special itself as partners.
+std::vector<int> g_classRep;
+void classReps()
+{
+    if (!g_classRep.empty()) return;
+    std::set<std::string> seen;
+    for (int i : g_sub) if (seen.insert(g_pool[i].cls).second) g_classRep.push_back(i);
+}
+uint64_t specialCount()
+{
+    classReps();
+    return uint64_t(g_nbasic + 1) * (g_sub.size() + g_nbasic + 2) + uint64_t(g_special.size() - g_nbasic) * (g_classRep.size() + g_nbasic + 2);
+}
+// returns: s (index into g_special, g_special.size() = null), partner list, x
+void specialDecode(uint64_t idx, size_t &s, const std::vector<int> *&list, size_t &x)
+{
+    classReps();
+    uint64_t nxA = g_sub.size() + g_nbasic + 2, blockA = uint64_t(g_nbasic + 1) * nxA;
+    if (idx < blockA) { size_t a = idx / nxA; x = idx % nxA; s = a < g_nbasic ? a : g_special.size(); list = &g_sub; return; }
+    idx -= blockA;
+    uint64_t nxB = g_classRep.size() + g_nbasic + 2;
+    s = g_nbasic + idx / nxB; x = idx % nxB; list = &g_classRep;
+}
 void runSpecial(uint64_t idx, Ctx &c)
 {
     realiseAll();
-    size_t ns = g_special.size() + 1, nx = g_sub.size() + ns; // partner: sub-pool member or another special
-    size_t s = idx / nx, x = idx % nx;
+    size_t s, x;
+    const std::vector<int> *listp;
+    specialDecode(idx, s, listp, x);
+    const std::vector<int> &list = *listp;
     UnitsPtr su = s < g_special.size() ? g_special[s].u : nullptr;
     std::string sk = s < g_special.size() ? g_special[s].kind : "null";
     if (s < g_special.size() && g_special[s].defined) { c.violation("harness:special-is-defined", memberJson(g_special[s])); return; }
     UnitsPtr xu;
     std::string xk;
-    if (x < g_sub.size()) { xu = g_pool[g_sub[x]].u; xk = "defined"; }
-    else { size_t t = x - g_sub.size(); xu = t < g_special.size() ? g_special[t].u : nullptr; xk = t < g_special.size() ? g_special[t].kind : "null"; }
+    if (x < list.size()) { xu = g_pool[list[x]].u; xk = "defined"; }
+    else {
+        size_t t = x - list.size();
+        if (t < g_nbasic) { xu = g_special[t].u; xk = g_special[t].kind; }
+        else if (t == g_nbasic) { xu = nullptr; xk = "null"; }
+        else { xu = su; xk = "itself"; }
+    }
     ++c.judged;
     c.outcome(sk + " x " + (xk == "defined" ? xk : "special"));
+    // "fully defined" is Units::isDefined(): it must say no for every one of these
+    if (su && x == 0 && su->isDefined()) report(c, "special:isDefined-true:" + sk, {{"special", sk}, {"special_spec", memberJson(g_special[s])}});
     for (int dir = 0; dir < 2; ++dir) {
         const UnitsPtr &p = dir ? xu : su, &q = dir ? su : xu;
         std::string where = sk + (dir ? ":as-second" : ":as-first") + (xk == "defined" ? "" : ":with-" + xk);
-        json d = {{"special", sk}, {"partner", x < g_sub.size() ? memberJson(g_pool[g_sub[x]]) : json(xk)}};
+        json d = {{"special", sk}, {"partner", x < list.size() ? memberJson(g_pool[list[x]]) : json(xk)}};
         if (s < g_special.size()) d["special_spec"] = memberJson(g_special[s]);
         if (Units::compatible(p, q)) report(c, "special:compatible-true:" + where, d);
         double f = Units::scalingFactor(p, q);
@@ -769,14 +860,14 @@ void runSpecial(uint64_t idx, Ctx &c)
 void runUnchecked(uint64_t idx, Ctx &c)
 {
     realiseAll();
-    size_t ns = g_special.size() + 1, nx = 3 + ns;
+    size_t nx = 3 + g_nbasic + 1; // partners: three defined members, the hand-listed undefined arguments, null
     size_t s = idx / nx, x = idx % nx;
     UnitsPtr su = s < g_special.size() ? g_special[s].u : nullptr;
     std::string sk = s < g_special.size() ? g_special[s].kind : "null";
     UnitsPtr xu;
     std::string xk;
     if (x < 3) { size_t pick[3] = {0, g_sub.size() / 2, g_sub.size() - 1}; xu = g_pool[g_sub[pick[x]]].u; xk = "defined"; }
-    else { size_t t = x - 3; xu = t < g_special.size() ? g_special[t].u : nullptr; xk = t < g_special.size() ? g_special[t].kind : "null"; }
+    else { size_t t = x - 3; xu = t < g_nbasic ? g_special[t].u : nullptr; xk = t < g_nbasic ? g_special[t].kind : "null"; }
     ++c.judged;
     c.outcome(sk + " x " + (xk == "defined" ? xk : "special"));
     for (int dir = 0; dir < 2; ++dir) {
@@ -1097,11 +1188,11 @@ int main(int argc, char **argv)
     std::vector<Family> fs = {
         {"pairs", [] { return uint64_t(g_pool.size()); }, runPairsRow, [](uint64_t i) { return json{{"row", memberJson(g_pool.at(i))}, {"against", "every member of the pool"}, {"pool", g_pool.size()}}; }},
         {"triples", [] { return uint64_t(g_sub.size()); }, runTriplesRow, [](uint64_t i) { return json{{"a", memberJson(g_pool.at(g_sub.at(i)))}, {"against", "every (b, c) of the sub-pool"}, {"subpool", g_sub.size()}}; }},
-        {"special", [] { return uint64_t((g_special.size() + 1) * (g_sub.size() + g_special.size() + 1)); }, runSpecial,
-         [](uint64_t i) { size_t nx = g_sub.size() + g_special.size() + 1; size_t s = i / nx, x = i % nx;
-                          return json{{"special", s < g_special.size() ? memberJson(g_special[s]) : json("null")}, {"partner", x < g_sub.size() ? memberJson(g_pool[g_sub[x]]) : json("special #" + std::to_string(x - g_sub.size()))}}; }},
-        {"unchecked", [] { return uint64_t((g_special.size() + 1) * (g_special.size() + 4)); }, runUnchecked,
-         [](uint64_t i) { size_t nx = g_special.size() + 4; size_t s = i / nx, x = i % nx;
+        {"special", specialCount, runSpecial,
+         [](uint64_t i) { size_t s, x; const std::vector<int> *l; specialDecode(i, s, l, x);
+                          return json{{"special", s < g_special.size() ? memberJson(g_special[s]) : json("null")}, {"partner", x < l->size() ? memberJson(g_pool[(*l)[x]]) : json("hand-listed undefined argument / null / itself #" + std::to_string(x - l->size()))}}; }},
+        {"unchecked", [] { return uint64_t((g_special.size() + 1) * (g_nbasic + 4)); }, runUnchecked,
+         [](uint64_t i) { size_t nx = g_nbasic + 4; size_t s = i / nx, x = i % nx;
                           return json{{"call", "Units::scalingFactor(a, b, false) and (b, a, false)"}, {"a", s < g_special.size() ? memberJson(g_special[s]) : json("null")}, {"b", x < 3 ? json("defined member of the sub-pool") : json("special #" + std::to_string(x - 3))}}; }},
         {"twins", [] { return uint64_t(g_pool.size()); }, runTwins, [](uint64_t i) { return json{{"a", memberJson(g_pool.at(i))}, {"twin", g_pool.at(i).twin >= 0 ? memberJson(g_pool.at(g_pool.at(i).twin)) : json()}, {"why", g_pool.at(i).twinWhy}}; }},
         {"validator", [] { return uint64_t(g_sub.size()); }, runValidatorRow, [](uint64_t i) { return json{{"a", memberJson(g_pool.at(g_sub.at(i)))}, {"against", "every member of the sub-pool"}, {"subpool", g_sub.size()}}; }},
